@@ -70,7 +70,8 @@ def gen_match_workload(rng):
                 op['limit'] = rng.choice([0, 0, 0, 2])
             prog.append(op)
         programs.append(prog)
-    return {'mode': 'match', 'keys': keys, 'docs': docs, 'programs': programs}
+    return {'mode': 'match', 'keys': keys, 'docs': docs, 'programs': programs,
+            'lower_pressure': rng.choice([0, 0, 0, 505, 511, 512, 600])}
 
 
 def gen_workload(rng, mode):
@@ -125,7 +126,8 @@ def gen_workload(rng, mode):
         programs.append(prog)
     if mode == 'purge' and not any(o['op'] == 'purge' for p in programs for o in p):
         programs[rng.randrange(nthreads)].append({'op': 'purge'})
-    return {'mode': mode, 'keys': keys, 'docs': docs, 'programs': programs}
+    return {'mode': mode, 'keys': keys, 'docs': docs, 'programs': programs,
+            'lower_pressure': rng.choice([0, 0, 0, 505, 511, 512, 600])}
 
 
 def gen_policy_spec(rng, ref_steps):
@@ -216,26 +218,53 @@ def reference_pass(sv, ctx, workload, count_steps=True):
     return ref, steps, ref_keys
 
 
-def execute(sv, workload, policy_spec, sched_seed=0, bound=None, docs=None, count_steps=True):
-    """Run one workload under one schedule.  Returns a result dict (pure data)."""
-
-    ctx = ops.Ctx(sv, workload['keys'], workload['docs'], docs=docs)
-    # 'precompiled' forms are prepared outside the simulated run
+def _reference_child(sv, workload, count_steps):
+    ctx = ops.Ctx(sv, workload['keys'], workload['docs'])
     for prog in workload['programs']:
         for op in prog:
             if op.get('form') == 'precompiled':
                 ctx.precompile(op['key'])
     try:
         with env.wall_guard(8.0):
-            ref, ref_steps, ref_keys = reference_pass(sv, ctx, workload, count_steps)
+            return reference_pass(sv, ctx, workload, count_steps)
     except env.SlowOperation:
         sys.settrace(None)
         return {'discarded': 'slow-operation-in-reference-pass'}
+
+
+def execute(sv, workload, policy_spec, sched_seed=0, bound=None, docs=None, count_steps=True):
+    """Run one workload under one schedule.  Returns a result dict (pure data)."""
+
+    # The "run alone" reference is computed in a forked child, so that this process reaches the concurrent run without
+    # having used the library at all: races that only exist at FIRST use (lazy initialisation) stay reachable.
+    from sim import runner
+    try:
+        got = runner.isolated(_reference_child, sv, workload, count_steps, hang_s=120)
+    except RuntimeError as e:
+        if 'signal=14' in str(e):
+            return {'discarded': 'slow-operation-in-reference-pass'}
+        raise
+    if isinstance(got, dict):
+        return got
+    ref, ref_steps, ref_keys = got
+    ctx = ops.Ctx(sv, workload['keys'], workload['docs'], docs=docs)
+    # 'precompiled' forms are prepared outside the simulated run
+    for prog in workload['programs']:
+        for op in prog:
+            if op.get('form') == 'precompiled':
+                ctx.precompile(op['key'])
     if policy_spec is None:
         return {'ref': ref, 'ref_steps': ref_steps}
     if callable(policy_spec):
         policy_spec = policy_spec(ref_steps)
     env.canonical_state(sv)
+    pressure = workload.get('lower_pressure', 0)
+    if pressure:
+        # fill the shared lower-casing cache (bound 512) through the public helper, so that insertions made during
+        # the concurrent run have to evict
+        low = sys.modules['soupsieve.util'].lower
+        for j in range(pressure):
+            low('Pad%dX' % j)
     policy = make_policy(policy_spec, random.Random(sched_seed))
     programs = [[(lambda s, tid, o=op: ops.run_op(ctx, o)) for op in prog] for prog in workload['programs']]
     kinds = [[('compile' if op['op'] == 'compile' else ('purge' if op['op'] == 'purge' else 'query')) for op in prog]
